@@ -330,11 +330,13 @@ def stack_from(series, files, order=None):
     idx = list(range(len(files)))
     if order is not None:
         idx = order
+    st._verif_ids = {}
     with warnings.catch_warnings():
         warnings.simplefilter('ignore')
         for i in idx:
             try:
                 st.add_dcm(G.dataset_of(series, files[i]))
+                st._verif_ids[id(st._files_info[-1][0])] = files[i]['id']
                 status.append('ok')
             except Exception as e:
                 status.append(type(e).__name__)
@@ -450,6 +452,63 @@ def grid_round(rep, r, tier):
                 Sx = len({round(x[2], 6) for x in tup})
                 if len(fl) != int(np.prod(shape[2:])) or shape[2] != Sx:
                     rep.failure('accepted stack of %d files has shape %s' % (len(fl), shape), dict(case, tag='grid:count'))
+    # ---- small exhaustive scope: every sub-set of 4 or 6 files of a 2 x 2 x 2 grid with explicit
+    #      time and vector ordering (unevenly represented vector values whose counts still factor are
+    #      among them) -- implementation, independent oracle and Lean model on each
+    drv = core.Driver()
+    series = G.gen_series(r, tier, S=2, T=2, V=2, ordering='explicit_tv', orient='axial', acq='none')
+    for f in series['files']:
+        f['meta'] = {k: v for k, v in f['meta'].items() if k in ('EchoTime', 'FlipAngle')}
+    files = series['files']
+    reqs, meta = [], []
+    sizes = (4, 6) if tier == 'quick' else (2, 3, 4, 5, 6, 7, 8)
+    for k in sizes:
+        for sub in itertools.combinations(range(len(files)), k):
+            fl = [files[i] for i in sub]
+            st, status = stack_from(series, fl)
+            q = queries(st)
+            accepted = all(v == 'ok' for v in q.values())
+            refused = all(v == 'InvalidStackError' for v in q.values())
+            cg = complete_grid(tuples_of(series, fl))
+            rep.evaluations += 1
+            rep.count('grid/exhaustive_2x2x2/size%d' % k)
+            rep.nontriv(['ex222', sub])
+            case = {'suite': 'grid', 'series': series, 'variant': 'subset-of-2x2x2', 'files': list(sub), 'queries': q}
+            if not (accepted or refused):
+                rep.failure('the four queries disagree or raise something else: %s' % q, dict(case, tag='grid:mixed:subset'))
+            elif cg is True and not accepted:
+                rep.failure('a complete grid is rejected: files %s' % (sub,), dict(case, tag='grid:reject-complete:subset'))
+            elif cg is False and accepted:
+                from collections import Counter
+                tup = tuples_of(series, fl)
+                pc = Counter(round(x[2], 6) for x in tup)
+                vc = Counter(x[0] for x in tup)
+                balanced = len(set(pc.values())) == 1 and len(set(vc.values())) == 1
+                rep.failure('an incomplete stack converts: files %s' % ([(f['s'], f['t'], f['v']) for f in fl],),
+                            dict(case, tag='grid:accept-incomplete:' + ('balanced-counts' if balanced else 'subset')))
+            tuples = model_tuples(st)
+            try:
+                shape = quiet(st.get_shape)
+                got = {'shape': list(shape), 'order': [t[3] for t in model_tuples(st)]}
+            except Exception as e:
+                got = type(e).__name__
+            reqs.append({'op': 'stack_shape', 'files': tuples, 'num': 1, 'den': 25})
+            meta.append((list(sub), got))
+    co = rep.corr.setdefault('stack_shape_exhaustive', {'cases': 0, 'agree': 0, 'disagree': 0, 'skipped': 0})
+    for a, (sub, got) in zip(drv.ask(reqs), meta):
+        co['cases'] += 1
+        if a == 'invalid' or isinstance(got, str):
+            ok = (a == 'invalid') and (got == 'InvalidStackError')
+        else:
+            S, T, V = a['ok']
+            dims = got['shape'][2:] + [1] * (5 - len(got['shape']))
+            ok = (dims == [S, T, V]) and (a['order'] == got['order'])
+        if ok:
+            co['agree'] += 1
+        else:
+            co['disagree'] += 1
+            rep.disagreements.append(('stack_shape', 'stack:shape', {'series': series, 'files': sub},
+                                      'model %s vs implementation %s' % (json.dumps(a)[:200], json.dumps(got)[:200])))
     # ---- add-time refusals
     for ci in range({'quick': 30, 'thorough': 400}[tier]):
         series = G.gen_series(r, tier, S=2, T=2, V=1, ordering='explicit')
@@ -506,8 +565,11 @@ def history_round(rep, r, tier):
     """C12: conversion results do not depend on add order or on earlier calls"""
     n = {'quick': 30, 'thorough': 500}[tier]
     maxlen = {'quick': 8, 'thorough': 16}[tier]
+    def snap_inputs(st):
+        return [json.dumps(fi[0].meta_ext._content, sort_keys=True, default=str) for fi in
+                sorted(st._files_info, key=lambda fi: st._verif_ids.get(id(fi[0]), 0))]
     for ci in range(n):
-        series = G.gen_series(r, tier)
+        series = G.gen_series(r, tier) if ci % 5 else G.gen_series(r, tier, S=1, T=1, V=1)   # single-file stacks too
         nfiles = len(series['files'])
         base_order = list(range(nfiles))
         args = [(o, e) for o in [''] + r.sample(all_orders(), 5) for e in (False, True)]
@@ -544,6 +606,8 @@ def history_round(rep, r, tier):
             rep.nontriv([ci, h, perm])
             rep.sample({'suite': 'history', 'history': h, 'add_order': perm, 'dims': [series['S'], series['T'], series['V']]}, cap=2)
             bad = None
+            inputs0 = snap_inputs(st)
+            held = []
             try:
                 for step in h:
                     if step[0] == 'shape':
@@ -558,7 +622,9 @@ def history_round(rep, r, tier):
                             bad = 'to_nifti_wrapper(%r) inside history %s differs from a fresh stack' % (step[1], h)
                             break
                     else:
-                        d = nii_digest(quiet(st.to_nifti, step[1], step[2]))
+                        out_nii = quiet(st.to_nifti, step[1], step[2])
+                        d = nii_digest(out_nii)
+                        held.append((out_nii, d, step))
                         if d != ref[(step[1], step[2])]:
                             bad = 'to_nifti%r inside history %s differs from a fresh stack' % (step[1:], h)
                             break
@@ -567,6 +633,13 @@ def history_round(rep, r, tier):
                     d = nii_digest(quiet(st.to_nifti, *a))
                     if d != ref[a]:
                         bad = 'to_nifti%r after history %s (add order %s) differs from a fresh stack' % (a, h, perm)
+                if bad is None:
+                    for out_nii, d, step in held:
+                        if nii_digest(out_nii) != d:
+                            bad = 'the image returned by to_nifti%r changed after later calls on the stack (history %s)' % (step[1:], h)
+                            break
+                if bad is None and snap_inputs(st) != inputs0:
+                    bad = 'a conversion changed the metadata of an input file (history %s)' % (h,)
             except Exception as e:
                 bad = 'history %s raised %r' % (h, e)
             if bad:
@@ -585,8 +658,9 @@ def model_tuples(st):
     """the sorting tuples the stack holds (after guessing they carry the guessed ordinate), on an
     integer lattice, with the file id taken from SOPInstanceUID"""
     out = []
+    ids = getattr(st, '_verif_ids', {})
     for w, tup in st._files_info:
-        fid = int(str(w.get_meta('SOPInstanceUID')).split('.')[-1])
+        fid = ids[id(w)] if id(w) in ids else int(str(w.get_meta('SOPInstanceUID')).split('.')[-1])
         out.append([lattice(tup[0]), lattice(tup[1]), lattice(tup[2]), fid])
     return out
 
